@@ -283,6 +283,7 @@ class Batch:
         self.evaluations = 0
         self.skipped = 0
         self.samples = []
+        self.tags = set()
 
     def run(self):
         check = self.check
@@ -360,6 +361,8 @@ class Batch:
                 self.nontrivial.add(key)
         for v in res.get('violations', []):
             self.violations.append((i, res['seed'], v))
+        if res.get('tags') and len(self.tags) < 50000:
+            self.tags.update(res['tags'])
         if len(self.samples) < 4 and res.get('sample') is not None:
             self.samples.append(res['sample'])
 
@@ -603,6 +606,8 @@ def run_check(check, tier, master_seed, runs=None, budget_s=None, quiet=False):
             'batch_digest': batch.digest.hexdigest()[:16],
             'counters': dict(sorted(batch.counters.items())),
             'known_findings_matched': {k: len(v) for k, v in listed.items()},
+            'distinct_tags': len(batch.tags),
+            'tag_samples': sorted(batch.tags)[:12],
             'harness_failures': len(batch.harness_failures),
             'real_vs_stub': check.REAL_STUB,
             'simulated_time': 'none: the library reads no clock (DESIGN.md 5); logical steps are in counters',
